@@ -17,6 +17,7 @@
 package avfs
 
 import (
+	"errors"
 	"io/fs"
 	"reflect"
 	"strconv"
@@ -75,6 +76,9 @@ type UnknownUserIdError int
 func (e UnknownUserIdError) Error() string {
 	return "user: unknown userid " + strconv.Itoa(int(e))
 }
+
+// ErrWriteAtInAppendMode is returned by WriteAt on a file opened with O_APPEND, as package os does.
+var ErrWriteAtInAppendMode = errors.New("os: invalid use of WriteAt on file opened with O_APPEND")
 
 // ErrorIdentifier is the interface that wraps the Is method of an error.
 type ErrorIdentifier interface {
